@@ -28,6 +28,46 @@ import (
 
 type progFn func(c *caseT) string // runs inside the bubble; "" = held, otherwise what deviated
 
+// Package fork repeats the sequential entry points of package pipe (Join, Take, TakeWhile, Throttling, Emit, Unfold,
+// Seq, ToSeq, StdErr) as its own functions. Programs written against apiT run once per variant (caseT.Comment ==
+// "fork" selects the fork entry points): a wrapper is held to the same statement as what it wraps.
+type apiT struct {
+	name       string
+	Join       func(context.Context, ...<-chan int) <-chan int
+	Throttling func(context.Context, <-chan int, int, time.Duration) <-chan int
+	Seq        func(...int) <-chan int
+	ToSeq      func(<-chan int) []int
+	Take       func(context.Context, <-chan int, int) <-chan int
+	TakeWhile  func(context.Context, <-chan int, func(int) bool) <-chan int
+	StdErr     func(<-chan int, <-chan error) <-chan int
+	Emit       func(ctx context.Context, cap int, tick time.Duration, mode string, f func(int) (int, error)) (<-chan int, <-chan error)
+	Unfold     func(ctx context.Context, cap int, seed int, mode string, f func(int) (int, error)) (<-chan int, <-chan error)
+}
+
+var pipeAPI = apiT{
+	name: "pipe", Join: pipe.Join[int], Throttling: pipe.Throttling[int], Seq: pipe.Seq[int], ToSeq: pipe.ToSeq[int], Take: pipe.Take[int], StdErr: pipe.StdErr[int],
+	TakeWhile: func(ctx context.Context, in <-chan int, f func(int) bool) <-chan int { return pipe.TakeWhile(ctx, in, pipe.Pure(f)) },
+	Emit: func(ctx context.Context, cap int, tick time.Duration, mode string, f func(int) (int, error)) (<-chan int, <-chan error) {
+		return pipe.Emit(ctx, cap, tick, pipeF(mode, f))
+	},
+	Unfold: func(ctx context.Context, cap int, seed int, mode string, f func(int) (int, error)) (<-chan int, <-chan error) {
+		return pipe.Unfold(ctx, cap, seed, pipeF(mode, f))
+	},
+}
+
+var forkAPI = apiT{
+	name: "fork", Join: fork.Join[int], Throttling: fork.Throttling[int], Seq: fork.Seq[int], ToSeq: fork.ToSeq[int], Take: fork.Take[int], StdErr: fork.StdErr[int],
+	TakeWhile: func(ctx context.Context, in <-chan int, f func(int) bool) <-chan int { return fork.TakeWhile(ctx, in, fork.Pure(f)) },
+	Emit: func(ctx context.Context, cap int, tick time.Duration, mode string, f func(int) (int, error)) (<-chan int, <-chan error) {
+		return fork.Emit(ctx, cap, tick, forkF(mode, f))
+	},
+	Unfold: func(ctx context.Context, cap int, seed int, mode string, f func(int) (int, error)) (<-chan int, <-chan error) {
+		return fork.Unfold(ctx, cap, seed, forkF(mode, f))
+	},
+}
+
+var api = pipeAPI
+
 var progs = map[string]progFn{}
 
 func thresholds(lo, hi int) []int {
@@ -62,13 +102,17 @@ func runProg(t *testing.T, prop string, c *caseT) bool {
 		panic("unknown program " + name)
 	}
 	c.Site = c.Stage
-	id := common.ID("prog " + c.String() + c.Comment)
+	id := common.ID(fmt.Sprintf("prog %+v", *c))
 	if common.Skip(id) {
 		return true
 	}
 	rec.Begin(id, c)
 	defer rec.End(id)
 	desc := ""
+	api = pipeAPI
+	if c.Comment == "fork" {
+		api = forkAPI
+	}
 	pn := common.Catch(func() {
 		synctest.Test(t, func(t *testing.T) {
 			desc = f(c)
@@ -96,7 +140,7 @@ func runProg(t *testing.T, prop string, c *caseT) bool {
 		}
 		held = false
 	}
-	rec.Eval("prog "+c.String()+c.Comment, true)
+	rec.Eval(fmt.Sprintf("prog %+v", *c), true)
 	rec.Count("programs_run", 1)
 	if rec.WantSample() {
 		rec.Sample(map[string]any{"case": c, "observed": "program finished, result equals the list model"})
@@ -183,15 +227,15 @@ func init() {
 			}
 			return nil
 		}))
-		e := pipe.TakeWhile(ctx, d, pipe.Pure(func(x int) bool { return true }))
-		g := pipe.Take(ctx, e, c.N+1)
+		e := api.TakeWhile(ctx, d, func(x int) bool { return true })
+		g := api.Take(ctx, e, c.N+1)
 		for range ea {
 			return "Map delivered an error, the function does not fail"
 		}
 		for range ed {
 			return "FMap delivered an error, the function does not fail"
 		}
-		got := pipe.ToSeq(g)
+		got := api.ToSeq(g)
 		var want []int
 		for _, x := range xs {
 			if y := f(x); p(y) {
@@ -207,9 +251,9 @@ func init() {
 	progs["seq-then-reuse-buffer"] = func(c *caseT) string {
 		buf := seqInts(7, c.N)
 		want := slices.Clone(buf)
-		ch := pipe.Seq(buf...)
+		ch := api.Seq(buf...)
 		callerOwnsRefill(buf) // the batch buffer is refilled for the next call
-		got := pipe.ToSeq(ch)
+		got := api.ToSeq(ch)
 		if !slices.Equal(got, want) && !(len(got) == 0 && len(want) == 0) {
 			return "ToSeq(Seq(buf...)) after the caller reused buf: " + diffAt(got, want)
 		}
@@ -233,6 +277,7 @@ func init() {
 }
 
 func progsC05(t *testing.T) {
+	progsHuge(t, "C05")
 	progsSlow(t, "C05")
 	progsInPlaceMonoid(t, "C05", []int{0})
 	typedProgs(t, "C05")
@@ -240,8 +285,10 @@ func progsC05(t *testing.T) {
 		for _, mode := range []string{"left-first", "right-first"} {
 			runProg(t, "C05", &caseT{Stage: "prog/partition-sequential", N: n, Cap: n, Mode: mode, FSeed: uint64(n)})
 		}
-		runProg(t, "C05", &caseT{Stage: "prog/chain-errors-first", N: n, Cap: n, FSeed: uint64(n) + 5})
-		runProg(t, "C05", &caseT{Stage: "prog/seq-then-reuse-buffer", N: n, Cap: n})
+		for _, v := range []string{"", "fork"} {
+			runProg(t, "C05", &caseT{Stage: "prog/chain-errors-first", N: n, Cap: n, FSeed: uint64(n) + 5, Comment: v})
+			runProg(t, "C05", &caseT{Stage: "prog/seq-then-reuse-buffer", N: n, Cap: n, Comment: v})
+		}
 		runProg(t, "C05", &caseT{Stage: "prog/fold-long", N: n, Cap: n})
 	}
 }
@@ -321,6 +368,8 @@ func init() {
 }
 
 func progsC08(t *testing.T) {
+	progsPreCancel(t, "C08")
+	progsHuge(t, "C08")
 	progsSlow(t, "C08")
 	typedProgs(t, "C08")
 	for _, n := range thresholds(1, common.Pick(4100, 70000)) {
@@ -504,6 +553,7 @@ func widePars() []int {
 }
 
 func progsC09(t *testing.T) {
+	progsPreCancel(t, "C09")
 	progsSlow(t, "C09")
 	typedProgs(t, "C09")
 	for _, par := range widePars() {
@@ -521,6 +571,7 @@ func progsC09(t *testing.T) {
 }
 
 func progsC10(t *testing.T) {
+	progsHuge(t, "C10")
 	progsSlow(t, "C10")
 	progsInPlaceMonoid(t, "C10", []int{1, 2, 3, 4, 8, 33})
 	for _, par := range widePars() {
@@ -557,17 +608,15 @@ func init() {
 			}
 			return i + 100, nil
 		}
-		var mf pipe.F[int, int]
+		em := "try"
 		if c.Mode == "lift" {
-			mf = pipe.Lift(f)
-		} else {
-			mf = pipe.Try(f)
+			em = "lift"
 		}
-		out, exx := pipe.Emit(ctx, c.Cap, tick, mf)
+		out, exx := api.Emit(ctx, c.Cap, tick, em, f)
 		nerr := 0
 		errDone := make(chan struct{})
 		if c.Mode == "try+stderr" {
-			out = pipe.StdErr(out, exx) // the library's own error reader
+			out = api.StdErr(out, exx) // the library's own error reader
 			close(errDone)
 		} else {
 			go func() {
@@ -622,15 +671,15 @@ func init() {
 		start := time.Now()
 		var mu sync.Mutex
 		var callAt []time.Duration
-		out, _ := pipe.Emit(ctx, c.Cap, tick, pipe.Pure(func(i int) int {
+		out, _ := api.Emit(ctx, c.Cap, tick, "pure", func(i int) (int, error) {
 			mu.Lock()
 			callAt = append(callAt, time.Since(start))
 			mu.Unlock()
 			if c.Mode == "slow-f" && i%97 == 5 {
 				time.Sleep(3 * tick) // a slow call now and then
 			}
-			return i
-		}))
+			return i, nil
+		})
 		for i := 0; i < c.N; i++ {
 			if c.Delay > 0 && i == c.Delay {
 				time.Sleep(7*tick + tick/2) // the consumer falls behind once
@@ -665,7 +714,7 @@ func init() {
 		ctx, cancel := context.WithCancel(context.Background())
 		defer cancel()
 		step := func(x int) int { return x*3 + 1 }
-		out, _ := pipe.Unfold(ctx, c.Cap, 5, pipe.Pure(step))
+		out, _ := api.Unfold(ctx, c.Cap, 5, "pure", func(x int) (int, error) { return step(x), nil })
 		want := 5
 		for i := 0; i < c.N; i++ {
 			v, ok := <-out
@@ -679,12 +728,19 @@ func init() {
 }
 
 func progsC11(t *testing.T) {
+	if common.Batch == 1%common.NBatch {
+		realTimeEmit("C11", common.Pick(1500, 6000), time.Millisecond, false)
+		realTimeEmit("C11", common.Pick(700, 3000), 2*time.Millisecond, true)
+	}
+	progsEmitDeadline(t, "C11")
+	progsPreCancel(t, "C11")
 	typedProgs(t, "C11")
 	for _, n := range []int{0, 1, 5, 40} {
 		for _, cp := range []int{0, 1, 4, 64} {
 			for _, outage := range []int{0, 3, 20, 300} {
 				for _, mode := range []string{"try", "lift"} {
 					runProg(t, "C11", &caseT{Stage: "prog/emit-outage-then-cancel", N: n, Cap: cp, Delay: outage, Mode: mode, Tick: int64(time.Millisecond)})
+					runProg(t, "C11", &caseT{Stage: "prog/emit-outage-then-cancel", N: n, Cap: cp, Delay: outage, Mode: mode, Tick: int64(time.Millisecond), Comment: "fork"})
 				}
 			}
 		}
@@ -697,10 +753,14 @@ func progsC11(t *testing.T) {
 						continue
 					}
 					runProg(t, "C11", &caseT{Stage: "prog/emit-long-paced", N: n, Cap: cp, Delay: hiccup, Mode: mode, Tick: int64(2 * time.Millisecond)})
+					if cp == 1 {
+						runProg(t, "C11", &caseT{Stage: "prog/emit-long-paced", N: n, Cap: cp, Delay: hiccup, Mode: mode, Tick: int64(2 * time.Millisecond), Comment: "fork"})
+					}
 				}
 			}
 		}
 		runProg(t, "C11", &caseT{Stage: "prog/unfold-long", N: n, Cap: n % 9})
+		runProg(t, "C11", &caseT{Stage: "prog/unfold-long", N: n, Cap: n % 9, Comment: "fork"})
 	}
 }
 
@@ -719,7 +779,7 @@ func init() {
 			ins[i] = make(chan int, c.Cap)
 			ro[i] = ins[i]
 		}
-		out := pipe.Join(ctx, ro...)
+		out := api.Join(ctx, ro...)
 		rounds := 3
 		go func() {
 			for r := 0; r < rounds; r++ {
@@ -756,7 +816,7 @@ func init() {
 			ins[i] = make(chan int, c.Cap)
 			ro[i] = ins[i]
 		}
-		out := pipe.Join(ctx, ro...)
+		out := api.Join(ctx, ro...)
 		go func() { ins[k-1] <- 42 }()
 		synctest.Wait()
 		select {
@@ -786,11 +846,11 @@ func init() {
 		var outs []<-chan int
 		for g := 0; g < groups; g++ {
 			callerOwnsFill(scratch, g)
-			outs = append(outs, pipe.Join(ctx, scratch...))
+			outs = append(outs, api.Join(ctx, scratch...))
 		}
 		callerOwnsClear(scratch)
 		for g, o := range outs {
-			got := pipe.ToSeq(o)
+			got := api.ToSeq(o)
 			slices.Sort(got)
 			var want []int
 			for i := 0; i < c.N; i++ {
@@ -806,18 +866,23 @@ func init() {
 }
 
 func progsC12(t *testing.T) {
+	progsJoinCancel(t, "C12")
+	progsHuge(t, "C12")
 	progsC12Shared(t)
 	progsSlow(t, "C12")
 	typedProgs(t, "C12")
 	for _, k := range thresholds(1, common.Pick(300, 2100)) {
 		for _, cp := range []int{0, 1} {
-			runProg(t, "C12", &caseT{Stage: "prog/join-round-robin", N: k, Cap: cp})
-			if cp == 0 {
-				runProg(t, "C12", &caseT{Stage: "prog/join-quiet-feeds", N: k})
+			for _, v := range []string{"", "fork"} {
+				runProg(t, "C12", &caseT{Stage: "prog/join-round-robin", N: k, Cap: cp, Comment: v})
+				if cp == 0 {
+					runProg(t, "C12", &caseT{Stage: "prog/join-quiet-feeds", N: k, Comment: v})
+				}
 			}
 		}
 		if k <= 70 {
 			runProg(t, "C12", &caseT{Stage: "prog/join-then-reuse-slice", N: k})
+			runProg(t, "C12", &caseT{Stage: "prog/join-then-reuse-slice", N: k, Comment: "fork"})
 		}
 	}
 }
@@ -864,7 +929,7 @@ func init() {
 				}
 			}
 		}()
-		out := pipe.Throttling(ctx, in, ops, iv)
+		out := api.Throttling(ctx, in, ops, iv)
 		var at []time.Duration
 		for v := range out {
 			if v != len(at) {
@@ -898,6 +963,12 @@ func init() {
 }
 
 func progsC13(t *testing.T) {
+	if common.Batch == 1%common.NBatch {
+		realTimeThrottle("C13", 1, common.Pick(3000, 12000), time.Millisecond, false)
+	}
+	if common.Batch == 2%common.NBatch {
+		realTimeThrottle("C13", 3, common.Pick(6000, 20000), time.Millisecond, true)
+	}
 	progsC13Idle(t)
 	typedProgs(t, "C13")
 	for _, ops := range thresholds(1, common.Pick(4200, 70000)) {
@@ -910,6 +981,9 @@ func progsC13(t *testing.T) {
 					continue
 				}
 				runProg(t, "C13", &caseT{Stage: "prog/throttle-steady", N: ops, Cap: cp, Mode: mode, Tick: int64(500 * time.Millisecond)})
+				if ops%3 == 0 {
+					runProg(t, "C13", &caseT{Stage: "prog/throttle-steady", N: ops, Cap: cp, Mode: mode, Tick: int64(500 * time.Millisecond), Comment: "fork"})
+				}
 			}
 		}
 	}
@@ -967,6 +1041,8 @@ func callerOwnsFill(s []<-chan int, g int) {
 // ---------------------------------------------------------------- C06
 
 func progsC06(t *testing.T) {
+	progsJoinCancel(t, "C06")
+	progsPreCancel(t, "C06")
 	progsSlow(t, "C06")
 	typedProgs(t, "C06")
 	// a source that fails for good, its errors taken by StdErr (or a reader), then cancel: everything has to go
@@ -1257,7 +1333,7 @@ func init() {
 		defer cancel()
 		ops, iv := c.N, time.Duration(c.Tick)
 		in := make(chan int, c.Cap)
-		out := pipe.Throttling(ctx, in, ops, iv)
+		out := api.Throttling(ctx, in, ops, iv)
 		start := time.Now()
 		var at []time.Duration
 		total := 0
@@ -1314,6 +1390,9 @@ func progsC13Idle(t *testing.T) {
 						end = "pacer-stays"
 					}
 					runProg(t, "C13", &caseT{Stage: "prog/throttle-idle-burst", N: ops, Cap: cp, Delay: q, Mode: mode, End: end, Tick: int64(200 * time.Millisecond)})
+					if ops == 2 || ops == 16 {
+						runProg(t, "C13", &caseT{Stage: "prog/throttle-idle-burst", N: ops, Cap: cp, Delay: q, Mode: mode, End: end, Tick: int64(200 * time.Millisecond), Comment: "fork"})
+					}
 				}
 			}
 		}
@@ -1344,12 +1423,12 @@ func init() {
 			}
 			var got []int
 			if c.End == "two-joins" {
-				a, b := pipe.Join(ctx, ch), pipe.Join(ctx, ch, pipe.Seq[int]())
+				a, b := api.Join(ctx, ch), api.Join(ctx, ch, api.Seq())
 				done := make(chan []int)
 				go func() { done <- pipe.ToSeq(b) }()
 				got = append(pipe.ToSeq(a), <-done...)
 			} else {
-				got = pipe.ToSeq(pipe.Join(ctx, ch, ch))
+				got = api.ToSeq(api.Join(ctx, ch, ch))
 			}
 			slices.Sort(got)
 			if len(got) != n || (n > 0 && (got[0] != rep*100000+1 || got[n-1] != rep*100000+n)) {
@@ -1366,6 +1445,9 @@ func progsC12Shared(t *testing.T) {
 			for _, mode := range []string{"prefilled", "live"} {
 				for _, end := range []string{"same-join", "two-joins"} {
 					runProg(t, "C12", &caseT{Stage: "prog/join-shared-input", N: n, Cap: cp, Mode: mode, End: end})
+					if n == 40 {
+						runProg(t, "C12", &caseT{Stage: "prog/join-shared-input", N: n, Cap: cp, Mode: mode, End: end, Comment: "fork"})
+					}
 				}
 			}
 		}
